@@ -3,10 +3,12 @@
 #![allow(dead_code)]
 
 pub mod c01;
+pub mod c02;
 pub mod c09;
 pub mod c12;
 pub mod c13;
 pub mod c14;
+pub mod c16;
 pub mod eng;
 pub mod gen_types;
 pub mod hooks;
